@@ -733,8 +733,12 @@ Definition massage (popv : bool) (t : tree) : res tree :=
   | _ => Unmodelled
   end.
 
+(** compare_molrecs has no equal_phase parameter and forwards atol, rtol, forgive only *)
+Definition mol_opts (o : cropts) : cropts :=
+  {| r_atol := r_atol o; r_rtol := r_rtol o; forgive := forgive o; r_phase := EpBool false |}.
+
 Definition compare_molrecs (o : cropts) (e c : tree) : res bool :=
-  bind (massage true e) (fun e' => bind (massage true c) (fun c' => compare_recursive o e' c')).
+  bind (massage true e) (fun e' => bind (massage true c) (fun c' => compare_recursive (mol_opts o) e' c')).
 
 (** ProtoModel.compare(self, other, **kwargs) = compare_recursive(self, other, **kwargs); _compare_recursive first
     replaces a model by its .dict(): a model is represented by the tree of that dict *)
@@ -762,6 +766,58 @@ Definition compare_full {R} (H : bool -> ropts -> R) (ro : ropts) (phase : bool)
   with_handler H ro (compare phase e c).
 Definition compare_recursive_full {R} (H : bool -> ropts -> R) (ro : ropts) (o : cropts) (e c : tree) : res R :=
   with_handler H ro (compare_recursive o e c).
+
+(** compare_molrecs(..., verbose, return_message, return_handler): quiet=(verbose == 0) *)
+Definition compare_molrecs_full {R} (H : bool -> ropts -> R) (verbose : Z) (rm : bool) (o : cropts) (e c : tree) : res R :=
+  with_handler H {| quiet := Z.eqb verbose 0; return_message := rm |} (compare_molrecs o e c).
+
+(** ProtoModel.compare(self, other, **kwargs): every keyword is forwarded to compare_recursive *)
+Definition protomodel_compare_full {R} (H : bool -> ropts -> R) (ro : ropts) (o : cropts) (self other : tree) : res R :=
+  compare_recursive_full H ro o self other.
+
+(* ------------------------------------------------------------------------------------------ *)
+(** * The isinstance ladder of _compare_recursive, as data (the ladder, the subclass facts and the floating-dtype
+      table are generated from the source and the running numpy into Gen/CompareGlue.v; Proofs/CompareGlue.v proves
+      that [cmp_rec] dispatches exactly as the generated ladder says) *)
+
+(** the concrete Python type of a node of [expected] *)
+Inductive pyty := PyNone | PyBool | NpBool | PyInt | NpInt | PyFloat | NpFloat | PyComplex | NpComplex | PyStr | NpStr
+                | PyList | PyTuple | PyDict | PyNdarray | PySet.
+
+(** the classes named in the isinstance tests *)
+Inductive pycls := CStr | CInt | CBool | CComplex | CNpBool | CList | CTuple | CDict | CFloat | CNpNumber | CNdarray
+                 | CNoneType | CBaseModel.
+
+(** what a branch does: != / zip loop / key sets and common keys / compare_values / ndarray by dtype / identity with None *)
+Inductive action := AExact | ASeq | ADict | AValues | AArray | ANone | AUnknown.
+
+Definition pytype_of (t : tree) : pyty :=
+  match t with
+  | TSc np s =>
+      match s with
+      | SNone => PyNone
+      | SBool _ => if np then NpBool else PyBool
+      | SInt _ => if np then NpInt else PyInt
+      | SFloat _ => if np then NpFloat else PyFloat
+      | SCplx _ _ => if np then NpComplex else PyComplex
+      | SStr _ => if np then NpStr else PyStr
+      | SObj => PySet
+      end
+  | TList _ => PyList          (* or PyTuple: the ladder treats both alike (proved of the generated ladder) *)
+  | TDict _ => PyDict
+  | TArr _ _ _ => PyNdarray
+  | TOther => PySet
+  end.
+
+(** first branch one of whose classes the value is an instance of; the final else otherwise *)
+Definition dispatch (isinst : pyty -> pycls -> bool) (ladder : list (list pycls * action)) (t : pyty) : action :=
+  match find (fun br => existsb (isinst t) (fst br)) ladder with
+  | Some br => snd br
+  | None => AUnknown
+  end.
+
+(** the verdict expression handed to return_handler at a return site *)
+Inductive retsite := RTrue | RFalse | RAllclose | RNoErrors.
 
 (* ------------------------------------------------------------------------------------------ *)
 (** * Correspondence cases *)
